@@ -48,11 +48,16 @@ RULE = (
     "whatever state the earlier cases of the shard left the library), a decoded again by from_raw and by "
     "from_raw_to_holder and constructed, then the complete factory clause for b (constructs b, decodes it through "
     "from_raw), b through from_raw_to_holder with its 8 accessors and the three inspectors on b's octets, then the three "
-    "results of a are observed again (class, all fields, packet_len, pdu_data_field_len, pack()) and a's holder must "
-    "still hold the same object and answer all 8 accessors for kind a. relation 'complement': all 256 configurations of a, b's "
+    "results of a and the two octet buffers their pack() returned are observed again (class, all fields, packet_len, "
+    "pdu_data_field_len by pure attribute reads; the buffers octet for octet), then the three results must still "
+    "re-pack to the reference octets and a's holder must still hold the same object and answer all 8 accessors for "
+    "kind a. relation 'complement': all 256 configurations of a, b's "
     "configuration differs in every header axis and in every ID octet, parameter sets (minimal, full) and (full, minimal); "
     "relation 'same': the 16 configurations of a Latin square (every width pair and every flag combination once), same "
-    "configuration and IDs for b, all 4 parameter-set pairs. (3) holder histories: case = (start state, origin of the "
+    "configuration and IDs for b, all 4 parameter-set pairs; relation 'identical-header' (same 16 configurations): every "
+    "ordered pair of different directive kinds for which the variable-length parts of one can be padded so that the two "
+    "fixed headers are octet-for-octet identical (same direction, same data field length; EOF/Metadata, NAK/Finished, "
+    "Keep Alive/Finished), i.e. only the directive octet and the body tell the two PDUs apart. (3) holder histories: case = (start state, origin of the "
     "assigned PDUs, event sequence of exactly the depth bound). Start states: PduHolder(None), PduHolder(<constructed "
     "PDU of kind k>), PduFactory.from_raw_to_holder(<octets of kind k>) for the 8 kinds. Events (31): `holder.pdu = x` "
     "and `holder.base = x` for a PDU x of each of the 8 kinds (constructed or decoded objects), and the 15 observers "
@@ -244,11 +249,13 @@ def check_holder(rec, kind, recipe, holder, origin, case=None, held=None):
 
 
 def pdu_observer(unit):
-    """everything the property says about a decoded PDU, as a plain value (copies)"""
+    """what the property says about a decoded PDU, as a plain value (copies).  Pure attribute reads only: pack()
+    recomputes and stores lengths inside the object, an observer that calls it could repair or disturb what it observes;
+    pack() results are held separately (observe=bytes) and re-packing is compared explicitly at the end of a case."""
     cls = unit.cls()
 
     def f(o):
-        return (type(o) is cls, unit.observe(o), int(o.packet_len), int(o.pdu_data_field_len), bytes(o.pack()))
+        return (type(o) is cls, unit.observe(o), int(o.packet_len), int(o.pdu_data_field_len))
 
     return f
 
@@ -317,18 +324,69 @@ def _recipe(kind, cfg, tag):
     return {"cfg": c, "params": p}
 
 
-def indep_case(rec, a, b, ci, rel, tag_a, tag_b):
-    """decode / construct a; decode / construct b; the results of a must not have changed"""
-    case = {"kind": "indep", "unit": a, "later": b, "ci": ci, "rel": rel, "tags": [tag_a, tag_b]}
-    ua, ub = U.UNITS[a], U.UNITS[b]
+def pair_recipes(a, b, ci, rel, tag_a, tag_b):
     cfg_a = dict(CFGS[ci], ids="dir" if (tag_a == "min" or rel == "same") else "std")
     cfg_b = complement(cfg_a) if rel == "complement" else dict(cfg_a)
-    ra, rb = _recipe(a, cfg_a, tag_a), _recipe(b, cfg_b, tag_b)
+    return _recipe(a, cfg_a, tag_a), _recipe(b, cfg_b, tag_b)
+
+
+def _body_len(kind, recipe):
+    r = U.norm(recipe)
+    return len(U.UNITS[kind].ref(recipe)) - R.header_len_of(r["cfg"]["idw"], r["cfg"]["seqw"]) - (2 if r["cfg"]["crc"] else 0)
+
+
+def twin_recipe(kind, cfg, length):
+    """a recipe of `kind` under cfg whose data field is `length` octets long (variable-length parts padded), or None"""
+    base = _recipe(kind, cfg, "min")
+    pad = length - _body_len(kind, base)
+    if pad == 0:
+        return base
+    cands = []
+    if kind == "MetadataPdu" and 0 < pad < 200:
+        cands.append(dict(base["params"], src="a" * pad))
+    if kind == "FinishedPdu":
+        if pad >= 6:  # one filestore response with a one-name action: 2 + 1 + (1 + n) + 1 octets
+            cands.append(dict(base["params"], resps=[dict(U.RESP_ONE_NAME, first="d" * (pad - 5))]))
+        cands.append(dict(base["params"], cc=4, fault=U._fault_for(cfg)))
+    if kind == "EofPdu":
+        cands.append(dict(base["params"], cc=6, fault=U._fault_for(cfg)))
+    for p in cands:
+        r = {"cfg": dict(base["cfg"]), "params": p}
+        if _body_len(kind, r) == length:
+            return r
+    return None
+
+
+def twin_pairs(ci):
+    """ordered pairs of PDUs of DIFFERENT directive kinds whose fixed headers are octet-for-octet identical (same
+    configuration, IDs, direction and data field length): only the directive octet and the body tell them apart"""
+    cfg = dict(CFGS[ci], ids="dir")
+    hlen = R.header_len_of(cfg["idw"], cfg["seqw"])
+    out = []
+    for x in R.KINDS:
+        rx = _recipe(x, cfg, "min")
+        raw_x = U.UNITS[x].ref(rx)
+        for y in R.KINDS:
+            if y == x:
+                continue
+            ry = twin_recipe(y, cfg, _body_len(x, rx))
+            if ry is None or U.UNITS[y].ref(ry)[:hlen] != raw_x[:hlen]:
+                continue
+            out.append((x, y, rx, ry))
+            out.append((y, x, ry, rx))
+    return out
+
+
+def indep_case(rec, a, b, ra, rb, rel):
+    """decode / construct a; decode / construct b; the results of a must not have changed"""
+    ra, rb = U.hexed(ra), U.hexed(rb)
+    case = {"kind": "indep", "unit": a, "later": b, "rel": rel, "ra": ra, "rb": rb}
+    ua, ub = U.UNITS[a], U.UNITS[b]
     raw_a, raw_b = ua.ref(ra), ub.ref(rb)
     F = U.L.PduFactory
-    keeper = Keeper(rec, PROPERTY, depth=3)
+    keeper = Keeper(rec, PROPERTY, depth=5)
     obs = pdu_observer(ua)
-    rec.case(True, ops=2 * U.OPS_PER_CASE + 3 + 3 + 8 + 3)
+    rec.case(True, ops=2 * U.OPS_PER_CASE + 3 + 3 + 2 + 16 + 3 + 3)
     # a alone is the business of the matrix shards (complete factory clause, minimised witness); here it only has to
     # be usable as the earlier result
     if U.evaluate(ua, ra, "factory", False) is not None:
@@ -343,12 +401,25 @@ def indep_case(rec, a, b, ci, rel, tag_a, tag_b):
         rec.violation("C12.independence/PduFactory.from_raw/second-decode-of-the-same-octets-differs", case, repr(e), a)
         return
     held = holder.pdu
-    keeper.hold("PduFactory.from_raw", first, obs, case)
-    keeper.hold("PduFactory.from_raw_to_holder", held, obs, case)
+    built = None
     try:
-        keeper.hold("constructed-original", ua.build(ra), obs, case)
+        built = ua.build(ra)
     except Exception:
         rec.count("original_not_constructible")
+    try:
+        packs_alone = built is not None and bytes(built.pack()) == raw_a  # otherwise C06 / C07, not this clause
+    except Exception:
+        packs_alone = False
+    try:  # the very octet buffers pack() hands out (a shared output buffer would be rewritten by the next pack())
+        out_first, out_holder = first.pack(), holder.pack()
+    except Exception:
+        out_first = out_holder = None  # C06 / C07
+    # snapshots are taken after the pack() calls above; from here on the held objects are only read
+    keeper.hold("PduFactory.from_raw", first, obs, case)
+    keeper.hold("PduFactory.from_raw_to_holder", held, obs, case)
+    keeper.hold("constructed-original", built, obs, case)
+    keeper.hold("PduFactory.from_raw.pack()", out_first, bytes, case)
+    keeper.hold("PduHolder.pack()", out_holder, bytes, case)
     # ---- later use of the library: kind b, straight after kind a (the complete factory clause again: constructs b,
     # decodes it through from_raw, compares every observable, equality, re-pack), then the holder entry point
     fail = U.evaluate(ub, rb, "factory", False)
@@ -366,6 +437,16 @@ def indep_case(rec, a, b, ci, rel, tag_a, tag_b):
     check_inspectors(rec, b, rb, raw_b, case=case)
     keeper.recheck({"later": b, "recipe": U.hexed(rb)})
     keeper.flush()
+    # "re-packing identically to the original" must still hold for the earlier results (it did when a was judged)
+    for subject, o in (("PduFactory.from_raw", first), ("PduFactory.from_raw_to_holder", held), ("constructed-original", built)):
+        if o is None or (o is built and not packs_alone):
+            continue
+        try:
+            again = bytes(o.pack())
+        except Exception as e:
+            again = repr(e)
+        if again != raw_a:
+            rec.violation(f"C12.independence/{subject}/repack-differs-after-a-later-call", case, again, raw_a)
     if holder.pdu is not held:
         rec.violation("C12.independence/PduHolder.pdu/replaced-by-a-later-call", case, type(holder.pdu).__name__, a)
     else:
@@ -387,7 +468,13 @@ def run_indep(rec, item):
     for ci in item["cfgs"]:
         for rel, ta, tb in indep_pairs(ci):
             for b in U.PDU_KINDS:
-                indep_case(rec, a, b, ci, rel, ta, tb)
+                ra, rb = pair_recipes(a, b, ci, rel, ta, tb)
+                indep_case(rec, a, b, ra, rb, rel)
+        if ci in SAME_CFGS:
+            for x, y, rx, ry in twin_pairs(ci):
+                if x == a:
+                    indep_case(rec, x, y, rx, ry, "identical-header")
+                    rec.count("independence_pairs_with_identical_fixed_header")
 
 
 # ======================================================================================================================
@@ -570,7 +657,7 @@ def replay(case):
         rec.case(True, ops=U.OPS_PER_CASE)
         U.judge(rec, PROPERTY, "factory", U.UNITS[kind], case["recipe"], case.get("via", "factory"), case.get("enc", False))
     elif case["kind"] == "indep":
-        indep_case(rec, case["unit"], case["later"], case["ci"], case["rel"], case["tags"][0], case["tags"][1])
+        indep_case(rec, case["unit"], case["later"], case["ra"], case["rb"], case["rel"])
     elif case["kind"] == "hist":
         pool, raws = hist_pool(case["cfg"])
         rec.case(True)
@@ -591,6 +678,7 @@ def finalize(tier, agg):
         "holder_accessor_calls": c.get("holder_pairs_checked", 0),
         "held_kind_x_requested_kind_pairs": 64,
         "independence_pairs_earlier_kind_x_later_kind_x_configuration": c.get("independence_pairs", 0),
+        "independence_pairs_with_identical_fixed_header": c.get("independence_pairs_with_identical_fixed_header", 0),
         "independence_results_held": c.get("independence_results_held", 0),
         "independence_reobservations": c.get("independence_reobservations", 0),
         "holder_history_alphabet": {"assignments": N_SET, "observers": len(OBSERVERS), "start_states": len(STARTS)},
